@@ -211,6 +211,93 @@ def f_corpus(kinds, name):
     return run
 
 
+def f_no_hidden_state(prog, reg, repo):
+    """C15: an AST scan of every module of python/gherkin: no global/nonlocal statement; the only module- or class-level
+    mutable containers are constants that no code writes to (no store, no mutator call, no del on them); no source of
+    nondeterminism is imported.  This is the machine-checked part of the non-interference argument of DESIGN.md 5 C15."""
+    import ast as _ast
+    root = os.path.join(repo, "python", "gherkin")
+    bad, nfiles, shared = [], 0, {}
+    trees = {}
+    for dp, _dn, fns in os.walk(root):
+        for fn in sorted(fns):
+            if fn.endswith(".py"):
+                path = os.path.join(dp, fn)
+                with open(path, encoding="utf8") as f:
+                    trees[os.path.relpath(path, root)] = _ast.parse(f.read())
+                nfiles += 1
+    mutators = {"append", "extend", "update", "pop", "clear", "insert", "remove", "setdefault", "sort", "reverse",
+                "popitem", "add", "discard", "appendleft", "extendleft", "popleft", "__setitem__", "__delitem__"}
+    nondet = {"random", "time", "datetime", "threading", "uuid", "secrets", "multiprocessing", "asyncio"}
+
+    def is_immutable_value(v):
+        if isinstance(v, (_ast.Constant, _ast.JoinedStr)):
+            return True
+        if isinstance(v, _ast.Tuple):
+            return all(is_immutable_value(e) for e in v.elts)
+        if isinstance(v, _ast.Call):
+            fn_ = _ast.unparse(v.func)
+            return fn_ in ("TypeVar", "TypedDict", "os.path.join", "re.compile", "os.path.dirname", "NamedTuple")
+        if isinstance(v, (_ast.Name, _ast.Attribute, _ast.Subscript, _ast.BinOp)):
+            return True     # aliases of types / other constants
+        return False
+    for rel, tree in trees.items():
+        for node in _ast.walk(tree):
+            if isinstance(node, (_ast.Global, _ast.Nonlocal)):
+                bad.append(f"{rel}:{node.lineno}: {type(node).__name__.lower()} statement")
+            if isinstance(node, (_ast.Import, _ast.ImportFrom)):
+                names = [a.name.split(".")[0] for a in node.names] + ([node.module.split(".")[0]] if isinstance(node, _ast.ImportFrom) and node.module else [])
+                for nm in names:
+                    if nm in nondet:
+                        bad.append(f"{rel}:{node.lineno}: imports {nm}")
+            if isinstance(node, _ast.Call) and isinstance(node.func, _ast.Name) and node.func.id in ("id", "hash", "input", "globals", "setattr"):
+                bad.append(f"{rel}:{node.lineno}: call of {node.func.id}()")
+        scopes = [(tree, "module")] + [(n, "class " + n.name) for n in _ast.walk(tree) if isinstance(n, _ast.ClassDef)]
+        for scope, what in scopes:
+            for st in scope.body:
+                tgts, val = [], None
+                if isinstance(st, _ast.Assign):
+                    tgts, val = st.targets, st.value
+                elif isinstance(st, _ast.AnnAssign) and st.value is not None:
+                    tgts, val = [st.target], st.value
+                elif isinstance(st, _ast.With):
+                    for inner in st.body:
+                        if isinstance(inner, (_ast.Assign, _ast.AnnAssign)) and getattr(inner, "value", None) is not None:
+                            t2 = inner.targets if isinstance(inner, _ast.Assign) else [inner.target]
+                            for t in t2:
+                                if isinstance(t, _ast.Name):
+                                    shared[t.id] = f"{rel}:{inner.lineno}"
+                    continue
+                for t in tgts:
+                    if isinstance(t, _ast.Name) and not is_immutable_value(val):
+                        shared[t.id] = f"{rel}:{st.lineno}"
+    # nothing writes to the shared containers
+    for rel, tree in trees.items():
+        for fn_ in [n for n in _ast.walk(tree) if isinstance(n, (_ast.FunctionDef, _ast.AsyncFunctionDef, _ast.Lambda))]:
+            for node in _ast.walk(fn_):
+                base = None
+                if isinstance(node, (_ast.Subscript, _ast.Attribute)) and isinstance(node.ctx, (_ast.Store, _ast.Del)):
+                    b = node.value
+                    while isinstance(b, (_ast.Subscript, _ast.Attribute)):
+                        b = b.value
+                    base = b.id if isinstance(b, _ast.Name) else None
+                elif isinstance(node, _ast.Name) and isinstance(node.ctx, (_ast.Store, _ast.Del)) and node.id in shared \
+                        and node.id.isupper():
+                    base = node.id
+                elif isinstance(node, _ast.Call) and isinstance(node.func, _ast.Attribute) and node.func.attr in mutators:
+                    b = node.func.value
+                    chain = _ast.unparse(b)
+                    while isinstance(b, (_ast.Subscript, _ast.Attribute)):
+                        b = b.value
+                    base = b.id if isinstance(b, _ast.Name) else None
+                    if ".spec" in chain or chain.endswith("_keywords") or ".dialect." in chain:
+                        bad.append(f"{rel}:{node.lineno}: mutator .{node.func.attr} on shared dialect data ({chain})")
+                if base in shared:
+                    bad.append(f"{rel}:{getattr(node, 'lineno', 0)}: writes to module/class-level container {base} (defined {shared[base]})")
+    return [ob(f"determinism::no-hidden-state[{nfiles} modules: no global/nonlocal, shared containers {sorted(shared)} never written, no nondeterministic import]",
+               not bad, "; ".join(bad[:5]), size=nfiles, witness=bad[:5] or None)]
+
+
 def f_json_identity(prog, reg, repo):
     a = open(os.path.join(repo, "gherkin-languages.json"), "rb").read()
     b = open(os.path.join(repo, "python", "gherkin", "gherkin-languages.json"), "rb").read()
@@ -265,8 +352,8 @@ PROPS = {
     "C11": dict(finite=[f_compile, f_docs("documents,stream")]),
     "C12": dict(finite=[f_docs("documents,errors")]),
     "C13": dict(finite=[f_docstring_states, f_docs("documents")]),
-    "C14": dict(finite=[f_modes, f_siblings, f_corpus(["errors"], "errors"), f_traces, f_docs("errors")]),
-    "C15": dict(finite=[f_compile, f_matcher, f_docs("history")]),
+    "C14": dict(finite=[f_modes, f_siblings, f_corpus(["errors"], "errors"), f_traces, f_matcher, f_docs("errors")]),
+    "C15": dict(finite=[f_no_hidden_state, f_compile, f_matcher, f_docs("history")]),
     "C16": dict(finite=[f_docs("layout,insertion,errors")]),
     "C17": dict(finite=[f_corpus(["source", "ast", "pickles", "errors"], "events"), f_docs("stream,layout")]),
     "C18": dict(finite=[f_table_extraction, f_build_once, f_lookahead_targets, f_corpus(["tokens"], "tokens"), f_traces]),
@@ -285,11 +372,14 @@ def run(pid, prog, reg, tier, repo):
 
 
 def level_of(pid):
-    return "proof"
+    from .claims import CLAIMS
+    return CLAIMS.get(pid, {}).get("level", "other")
 
 
 def explanation(pid):
-    return ""
+    from .claims import CLAIMS
+    c = CLAIMS.get(pid, {})
+    return c.get("text", "") + "  [trust/limits: " + c.get("note", "") + "]"
 
 
 COMMON_TRUST = [
